@@ -437,10 +437,48 @@ class An:
             elif last.get('n') in('int_val','digits'):
                 cur.ival=v if isinstance(v,IntV) else None
                 if not isinstance(v,IntV): cur.val=None
+    def loop_writes(self,head):
+        """locals possibly written while the loop headed by `head` runs: assigned in a block of the loop (blocks that
+        reach the header again), plus every local that is mutably borrowed anywhere in the function"""
+        cache=self.__dict__.setdefault('_lw',{})
+        if head in cache: return cache[head]
+        fn=self.fn; live=fn.live_blocks()
+        fwd=set(); st=[head]
+        while st:
+            b=st.pop()
+            for t in fn.succ(b):
+                if t in live and t not in fwd: fwd.add(t); st.append(t)
+        pred={}
+        for b in live:
+            for t in fn.succ(b): pred.setdefault(t,set()).add(b)
+        back=set(); st=[head]
+        while st:
+            b=st.pop()
+            for q in pred.get(b,()):
+                if q in live and q not in back: back.add(q); st.append(q)
+        body=(fwd&back)|{head}
+        w=set()
+        for b in body:
+            blk=fn.blocks[b]
+            for stt in blk['st']:
+                if stt['s']=='assign': w.add(stt['lhs']['l'])
+            t=blk['term']
+            if t['t']=='call' and t.get('dest'): w.add(t['dest']['l'])
+        for b in live:
+            for stt in fn.blocks[b]['st']:
+                if stt['s']=='assign' and stt['rv']['r']=='ref' and stt['rv'].get('mut'): w.add(stt['rv']['pl']['l'])
+        cache[head]=w
+        return w
     def dfs(self,bid,s,onpath):
         fn=self.fn; b=fn.blocks[bid]
         if b['cleanup'] or self.paths>3000: return
-        if bid in onpath or bid in getattr(self,'loop_heads',()): self.undec.append('loop'); self.loops=getattr(self,'loops',0)+1; return
+        if bid in getattr(self,'loop_heads',()) and self.kind=='scale-only' and getattr(self,'havoc_ok',True):
+            # only the label of the result is decided in this kind: widen at the loop header (every local the loop
+            # may write, directly or through a mutable borrow, becomes unknown) and explore the body once
+            if bid in onpath: return
+            for l in self.loop_writes(bid): s.store[l]=UNK
+            self.havocked=getattr(self,'havocked',0)+1
+        elif bid in onpath or bid in getattr(self,'loop_heads',()): self.undec.append('loop'); self.loops=getattr(self,'loops',0)+1; return
         onpath=onpath|{bid}
         for st in b['st']:
             if st['s']=='assign': self.assign(s,st)
@@ -729,6 +767,10 @@ class An:
                 val=self.recval(s,r)
                 v=Rec(Tt,None,val if isinstance(val,dict) else None,None,'rescaled@%d'%line)
                 if isinstance(val,dict): v.ival=IntV(val,Tt)
+        elif self.kind=='scale-only' and re.search(r'BigDecimal::with_scale_round$',res):
+            # summary established by the scale-only typing of with_scale_round itself: a (rounded) value labelled with the requested scale
+            Tt=T(1)
+            v=Rec(Tt if Tt is not None else ('unk','wsr@%d'%line),IntV('lossy',Tt) if Tt is not None else None,None,None,'rounded@%d'%line)
         elif self.kind and self.kind.startswith('rounded-') and re.search(r'BigDecimal::with_precision_round$|BigDecimal::with_scale_round$',res):
             r=args[0]
             val=self.recval(s,r) if isinstance(r,Rec) else None
